@@ -8,6 +8,10 @@ package main
 // name renders (both entry points, probe data) and which of the tracked
 // objects (templates, base documents, data) changed during renders. No oracle
 // logic: comparisons here are dumb before/after equalities of deep dumps.
+//
+// The engine is the one inside a document.TemplateRenderer (x_engine_front.go), so
+// that the renderer's entry points (LoadTemplateFromFile, RenderTemplate,
+// AnalyzeTemplate) and the engine's own act on one cache.
 
 import (
 	"encoding/json"
@@ -16,6 +20,7 @@ import (
 	"runtime/debug"
 	"sort"
 	"strings"
+	"sync"
 
 	"github.com/zerx-lab/wordZero/pkg/document"
 )
@@ -30,9 +35,10 @@ type engRes struct {
 	St    string   `json:"st"` // "ok" | "err" | "panic" | "" (no render)
 	Paras []string `json:"paras"`
 	Hdr   string   `json:"hdr"`
+	Tbl   []string `json:"tbl"` // "=" per table, then one string per row (x_engine_front.go)
 }
 
-func engNoRes() engRes { return engRes{St: "", Paras: []string{}, Hdr: ""} }
+func engNoRes() engRes { return engRes{St: "", Paras: []string{}, Hdr: "", Tbl: []string{}} }
 
 type engTracked struct {
 	id   int
@@ -45,7 +51,12 @@ type engTracked struct {
 }
 
 type engCtx struct {
-	eng     *document.TemplateEngine
+	rnd     *document.TemplateRenderer
+	eng     *document.TemplateEngine // the engine inside rnd
+	tmp     string                   // directory of the template files of this behaviour ("" = none yet)
+	files   int
+	pre     []engPreRec // concurrent runs: renders with undocumented data done alone after the setup
+	fmu     sync.Mutex
 	names   []string
 	probe   Op
 	tracked []*engTracked
@@ -67,13 +78,22 @@ func engStrs(v interface{}) []string {
 
 var engPNG = tinyPNG(7)
 
-// engData builds a fresh TemplateData from the abstract data record {v, items, c}.
+// engData builds a fresh TemplateData from the abstract data record {v, items, c, ik}; ik is the kind of the list items.
 func engData(d map[string]interface{}) *document.TemplateData {
 	td := document.NewTemplateData()
 	td.SetVariable("v", fmt.Sprint(d["v"]))
 	items := []interface{}{}
 	for _, n := range engStrs(d["items"]) {
-		items = append(items, map[string]interface{}{"name": n, "sub": []interface{}{"x"}})
+		switch d["ik"] {
+		case "smap":
+			items = append(items, map[string]string{"name": n, "other": "o"})
+		case "str":
+			items = append(items, n)
+		case "nokey":
+			items = append(items, map[string]interface{}{"other": n, "sub": []interface{}{"x"}})
+		default:
+			items = append(items, map[string]interface{}{"name": n, "sub": []interface{}{"x"}})
+		}
 	}
 	td.SetList("items", items)
 	c, _ := d["c"].(bool)
@@ -87,51 +107,20 @@ func engData(d map[string]interface{}) *document.TemplateData {
 func engOpData(op Op) map[string]interface{} {
 	d, _ := op["data"].(map[string]interface{})
 	if d == nil {
-		d = map[string]interface{}{"v": "", "items": []interface{}{}, "c": false}
+		d = map[string]interface{}{"v": "", "items": []interface{}{}, "c": false, "ik": "map"}
 	}
 	return d
 }
 
-// engBaseDoc builds the document a "doc" definition is loaded from: one paragraph per source line and a page header.
-func engBaseDoc(src []string) *document.Document {
+// engBaseDoc builds the document a document definition is loaded from: one paragraph per source line, a page
+// header and the tables the specification lists (x_engine_front.go).
+func engBaseDoc(src []string, tbls interface{}) *document.Document {
 	d := document.New()
 	for _, l := range src {
 		d.AddParagraph(l)
 	}
 	_ = d.AddHeader(document.HeaderFooterTypeDefault, "HDR {{v}}{{#if c}} ON{{/if}}")
-	// a table after the paragraphs (the projection of a render reads top-level paragraphs only, so the
-	// reference result is unaffected): placeholders in one run, split between runs exactly between the
-	// opening braces and inside the name, a static row, and a nested table. The deep before/after
-	// snapshot of the base document covers all of it.
-	if t, err := d.AddTable(&document.TableConfig{Rows: 2, Cols: 2, Width: 4000}); err == nil && t != nil {
-		_ = t.SetCellText(1, 0, "cell {{v}}")
-		_ = t.SetCellText(0, 1, "static")
-		if len(t.Rows) == 2 && len(t.Rows[0].Cells) == 2 {
-			split := func(parts ...string) []document.Paragraph {
-				p := document.Paragraph{}
-				for _, x := range parts {
-					p.Runs = append(p.Runs, document.Run{Text: document.Text{Content: x}})
-				}
-				return []document.Paragraph{p}
-			}
-			// row 0 holds no complete "{{" in any single run
-			t.Rows[0].Cells[0].Paragraphs = split("{", "{v}} tail")
-			t.Rows[1].Cells[1].Paragraphs = split("head {{", "v", "}}")
-		}
-		if in, err := t.AddNestedTable(1, 0, &document.TableConfig{Rows: 1, Cols: 1, Width: 1000}); err == nil && in != nil {
-			_ = in.SetCellText(0, 0, "nested {{v}}")
-		}
-	}
-	// a second table whose {{#each items}} row holds a nested table in one of its cells (items are maps)
-	if t, err := d.AddTable(&document.TableConfig{Rows: 2, Cols: 2, Width: 4000}); err == nil && t != nil {
-		_ = t.SetCellText(0, 0, "Name")
-		_ = t.SetCellText(0, 1, "Detail")
-		_ = t.SetCellText(1, 0, "{{#each items}}{{name}}")
-		_ = t.SetCellText(1, 1, "d {{/each}}")
-		if in, err := t.AddNestedTable(1, 1, &document.TableConfig{Rows: 1, Cols: 1, Width: 1000}); err == nil && in != nil {
-			_ = in.SetCellText(0, 0, "of {{name}}")
-		}
-	}
+	engAddTables(d, tbls)
 	return d
 }
 
@@ -178,7 +167,7 @@ func engHdr(d *document.Document) string {
 
 // engSaved projects the bytes of a saved document through the independent reader.
 func engSaved(d *document.Document) engRes {
-	r := engRes{St: "ok", Paras: []string{}, Hdr: ""}
+	r := engRes{St: "ok", Paras: []string{}, Hdr: "", Tbl: []string{}}
 	st, _ := guard(func() string {
 		b, err := d.ToBytes()
 		if err != nil {
@@ -193,6 +182,9 @@ func engSaved(d *document.Document) engRes {
 			return "xml"
 		}
 		for _, k := range body.Kids {
+			if k.Local == "tbl" {
+				r.Tbl = append(append(r.Tbl, "="), engTblRowsXML(k)...)
+			}
 			if k.Local != "p" {
 				continue
 			}
@@ -221,12 +213,15 @@ func engSaved(d *document.Document) engRes {
 
 func (c *engCtx) render(name, entry string, td *document.TemplateData) (engRes, *document.Document) {
 	var doc *document.Document
-	res := engRes{Paras: []string{}}
+	res := engRes{Paras: []string{}, Tbl: []string{}}
 	st, _ := guard(func() string {
 		var err error
-		if entry == "tpl" {
+		switch entry {
+		case "tpl":
 			doc, err = c.eng.RenderTemplateToDocument(name, td)
-		} else {
+		case "rnd":
+			doc, err = c.rnd.RenderTemplate(name, td)
+		default:
 			doc, err = c.eng.RenderToDocument(name, td)
 		}
 		if err != nil {
@@ -234,11 +229,12 @@ func (c *engCtx) render(name, entry string, td *document.TemplateData) (engRes, 
 		}
 		res.Paras = engParas(doc)
 		res.Hdr = engHdr(doc)
+		res.Tbl = engTbls(doc)
 		return "ok"
 	})
 	res.St = st
 	if st != "ok" {
-		res.Paras, res.Hdr = []string{}, ""
+		res.Paras, res.Hdr, res.Tbl = []string{}, "", []string{}
 	}
 	return res, doc
 }
@@ -315,28 +311,41 @@ func (c *engCtx) renderChecked(name, entry string, d map[string]interface{}) (en
 	return res, doc, engDiff(before, after)
 }
 
-// engPrep does the harness-side work of an operation that must not count as part of the call
-// (building the base document of a document template).
-func engPrep(op Op) *document.Document {
-	if op.Name() == "Load" {
-		if def, _ := op["def"].(map[string]interface{}); def != nil && def["k"] == "doc" {
-			return engBaseDoc(engStrs(op["src"]))
-		}
+// engPrepped is the harness-side work of an operation that must not count as part of the call: the base
+// document of a document template, written to a file for a template loaded from a file.
+type engPrepped struct {
+	doc  *document.Document
+	path string
+}
+
+func (c *engCtx) prep(op Op) engPrepped {
+	if op.Name() != "Load" {
+		return engPrepped{}
 	}
-	return nil
+	def, _ := op["def"].(map[string]interface{})
+	if def == nil || (def["k"] != "doc" && def["k"] != "file") {
+		return engPrepped{}
+	}
+	doc := engBaseDoc(engStrs(op["src"]), op["tbls"])
+	if def["k"] == "doc" {
+		return engPrepped{doc: doc}
+	}
+	return engPrepped{path: c.tmplFile(doc)}
 }
 
 // engCall performs one abstract operation on the engine. For loads it returns the template
 // object, for renders the projected result and the rendered document.
-func (c *engCtx) engCall(op Op, doc *document.Document, td *document.TemplateData) (ret string, t *document.Template, res engRes, out *document.Document) {
+func (c *engCtx) engCall(op Op, pr engPrepped, td *document.TemplateData) (ret string, t *document.Template, res engRes, out *document.Document) {
 	res = engNoRes()
 	ret, _ = guard(func() string {
 		switch op.Name() {
 		case "Config":
 		case "Load":
 			var err error
-			if doc != nil {
-				t, err = c.eng.LoadTemplateFromDocument(op.Str("n"), doc)
+			if pr.path != "" {
+				t, err = c.rnd.LoadTemplateFromFile(op.Str("n"), pr.path)
+			} else if pr.doc != nil {
+				t, err = c.eng.LoadTemplateFromDocument(op.Str("n"), pr.doc)
 			} else {
 				t, err = c.eng.LoadTemplate(op.Str("n"), strings.Join(engStrs(op["src"]), "\n"))
 			}
@@ -353,6 +362,9 @@ func (c *engCtx) engCall(op Op, doc *document.Document, td *document.TemplateDat
 				return "err"
 			}
 			return errRet(c.eng.ValidateTemplate(tt))
+		case "Analyze":
+			_, err := c.rnd.AnalyzeTemplate(op.Str("n"))
+			return errRet(err)
 		case "Remove":
 			c.eng.RemoveTemplate(op.Str("n"))
 		case "Clear":
@@ -375,8 +387,9 @@ func (c *engCtx) track(t *document.Template, doc *document.Document) {
 }
 
 func engNewCtx() *engCtx {
-	return &engCtx{eng: document.NewTemplateEngine(), names: []string{"A", "B", "G", "base"},
-		probe: Op{"data": map[string]interface{}{"v": "val1", "items": []interface{}{"n1", "n2"}, "c": true}},
+	rnd := document.NewTemplateRenderer()
+	return &engCtx{rnd: rnd, eng: engInner(rnd), names: []string{"A", "B", "G", "base"},
+		probe: Op{"data": map[string]interface{}{"v": "val1", "items": []interface{}{"n1", "n2"}, "c": true, "ik": "map"}},
 		byPtr: map[*document.Template]int{}}
 }
 
@@ -419,11 +432,12 @@ func runEngineInProc(c Case, emit Emitter) {
 	document.VerifResetGlobals()
 	document.VerifHook = nil
 	ctx := engNewCtx()
+	defer ctx.cleanup()
 	emit(Ev{"ev": "reset", "case": c.ID})
 	for i, op := range c.Steps {
 		ev := Ev{"ev": "step", "case": c.ID, "i": i, "op": op}
 		res, again, saved := engNoRes(), engNoRes(), engNoRes()
-		dmod := []string{}
+		dmod, atmod, abmod := []string{}, []string{}, []string{}
 		// (the deep dumps are current: the previous step ended with a sync and nothing ran since)
 		var ret string
 		switch op.Name() {
@@ -435,7 +449,7 @@ func runEngineInProc(c Case, emit Emitter) {
 			td := engData(engOpData(op))
 			before := engFull(td, nil)
 			var doc *document.Document
-			ret, _, res, doc = ctx.engCall(op, nil, td)
+			ret, _, res, doc = ctx.engCall(op, engPrepped{}, td)
 			dmod = append(dmod, engDiff(before, engFull(td, nil))...)
 			if res.St == "ok" {
 				saved = engSaved(doc)
@@ -443,22 +457,32 @@ func runEngineInProc(c Case, emit Emitter) {
 			var dm []string
 			again, _, dm = ctx.renderChecked(op.Str("n"), op.Str("e"), engOpData(op))
 			dmod = append(dmod, dm...)
+		case "Analyze":
+			// the analysis, the data it asks for, and the analysed template rendered twice with that very data object
+			var dm []string
+			ret, res, again, dm, atmod, abmod = ctx.analyze(op.Str("n"))
+			dmod = append(dmod, dm...)
 		default:
-			doc := engPrep(op)
+			pr := ctx.prep(op)
 			var t *document.Template
-			ret, t, _, _ = ctx.engCall(op, doc, nil)
+			ret, t, _, _ = ctx.engCall(op, pr, nil)
 			if op.Name() == "Load" && ret == "ok" && t != nil {
+				doc := pr.doc
+				if pr.path != "" {
+					doc = t.BaseDoc // opened by the library
+				}
 				ctx.track(t, doc)
 			}
 		}
 		tmod, bmod := ctx.sync()
-		if op.Name() != "Render" {
-			// only renders are required to leave templates and base documents alone
+		if op.Name() != "Render" && op.Name() != "Analyze" {
+			// only renders and analyses are required to leave templates and base documents alone
 			tmod, bmod = []string{}, []string{}
 		}
 		ev["ret"] = ret
 		ev["res"], ev["again"], ev["saved"] = res, again, saved
 		ev["tmod"], ev["bmod"], ev["dmod"] = tmod, bmod, engUniq(dmod)
+		ev["atmod"], ev["abmod"] = atmod, abmod
 		ev["cache"] = ctx.cacheIDs()
 		pr, pdm := ctx.probes()
 		ptm, pbm := ctx.sync()
